@@ -393,7 +393,7 @@ def check(prop, tier, seed):
                     if bucket is not None:
                         stats["dist"][bucket] = stats["dist"].get(bucket, 0) + 1
                         if nontriv:
-                            stats["nontrivial"].add(hash(op))
+                            stats["nontrivial"].add(hash((op, il)))
                             if len(stats["samples"]) < 6 and (len(stats["samples"]) == 0 or n % 977 == 0):
                                 stats["samples"].append({"op": op.strip()[:400], "impl": il[:400], "model": ml[:400]})
                     if cfg.oracle:
